@@ -49,10 +49,16 @@ Section Reply.
   Definition guard_ok (g : gw) (sid : Z) (cid : option Z) : bool :=
     zhas sid (g_sensors g) && match cid with None => true | Some c => vw_child (vw g) sid c end.
 
+  (* what an unknown node / child costs: a presentation request, to a valid node id only *)
+  Definition unknown_req (sid : Z) : list msg := if node_id_ok sid then unknown_reply v sid else [].
+
+  Lemma unknown_req_in sid : 0 <= sid <= 255 -> unknown_req sid = unknown_reply v sid.
+  Proof. intro R. unfold unknown_req. rewrite (node_id_ok_of sid R). reflexivity. Qed.
+
   Lemma is_sensor_closed g sid cid : cfgv v g ->
     is_sensor g sid cid =
     Ok (if guard_ok g sid cid then (g, true)
-        else if v_ge20 v then (deliver g (presentation_request sid), false) else (g, false)).
+        else if node_id_ok sid && v_ge20 v then (deliver g (presentation_request sid), false) else (g, false)).
   Proof.
     intro C. pose proof C as [T GE]. unfold is_sensor.
     set (ret := match get_node g sid with
@@ -63,22 +69,35 @@ Section Reply.
       destruct (zassoc sid (g_sensors g)); [destruct cid; reflexivity|reflexivity]. }
     rewrite R. clear R. clearbody ret.
     destruct (guard_ok g sid cid); cbn [negb andb]; [reflexivity|].
+    destruct (node_id_ok sid); cbn [andb]; [|reflexivity].
     rewrite GE, (ge20_eq v). destruct (v_ge20 v) eqn:G; [|reflexivity].
     rewrite (cfgv_tab v g C). rewrite k_presentation_req by (rewrite ge20_eq; exact G). rewrite k_internal.
     unfold deliver. change (mkMsg sid system_child_id 3 0 19 []) with (presentation_request sid).
     destruct (route g (presentation_request sid)) as [gg [r|]]; reflexivity.
   Qed.
 
-  Lemma is_sensor_eff g sid cid g1 b : cfgv v g -> Inv orc g ->
+  (* any node id (controller calls): nothing is asked of an id outside 0..255 *)
+  Lemma is_sensor_eff_any g sid cid g1 b : cfgv v g -> Inv orc g ->
     is_sensor g sid cid = Ok (g1, b) ->
-    b = guard_ok g sid cid /\ heff g g1 (if b then [] else unknown_reply v sid) /\ (b = true -> g1 = g).
+    b = guard_ok g sid cid /\ heff g g1 (if b then [] else unknown_req sid) /\ (b = true -> g1 = g).
   Proof.
     intros C I H. rewrite (is_sensor_closed g sid cid C) in H.
     destruct (guard_ok g sid cid).
     - inversion H; subst g1 b. split; [reflexivity|]. split; [apply heff_refl|reflexivity].
-    - unfold unknown_reply. destruct (v_ge20 v); inversion H; subst g1 b; (split; [reflexivity|]); (split; [|discriminate]).
+    - unfold unknown_req, unknown_reply.
+      destruct (node_id_ok sid); cbn [andb] in H;
+        [|inversion H; subst g1 b; split; [reflexivity|]; split; [apply heff_refl|discriminate]].
+      destruct (v_ge20 v); inversion H; subst g1 b; (split; [reflexivity|]); (split; [|discriminate]).
       + apply (heff_deliver orc v); [exact C|exact I|reflexivity].
       + apply heff_refl.
+  Qed.
+
+  (* a valid node id (every validated inbound message): the reply table's unknown_reply *)
+  Lemma is_sensor_eff g sid cid g1 b : cfgv v g -> Inv orc g -> 0 <= sid <= 255 ->
+    is_sensor g sid cid = Ok (g1, b) ->
+    b = guard_ok g sid cid /\ heff g g1 (if b then [] else unknown_reply v sid) /\ (b = true -> g1 = g).
+  Proof.
+    intros C I R H. rewrite <- (unknown_req_in sid R). exact (is_sensor_eff_any g sid cid g1 b C I H).
   Qed.
 
   Lemma guard_node g n : guard_ok g n None = known (vw g) n.
@@ -110,13 +129,13 @@ Section Reply.
   Proof. reflexivity. Qed.
 
   (* ---- set ---- *)
-  Lemma handle_set_eff g m g1 rep : cfgv v g -> Inv orc g -> wire_ok (m_payload m) = true -> m_type m = 1 ->
+  Lemma handle_set_eff g m g1 rep : cfgv v g -> Inv orc g -> 0 <= m_node m <= 255 -> wire_ok (m_payload m) = true -> m_type m = 1 ->
     handle_set g m = Ok (g1, rep) ->
     exists N, heff g g1 N /\ N ++ olist_np rep = prescribed v (vw g) m.
   Proof.
-    intros C I W Ty. unfold handle_set.
+    intros C I RN W Ty. unfold handle_set.
     destruct (is_sensor g (m_node m) (Some (m_child m))) as [[g0 b]|e] eqn:IS; cbn [bind]; [|discriminate].
-    destruct (is_sensor_eff _ _ _ _ _ C I IS) as (B & HE & GG).
+    destruct (is_sensor_eff _ _ _ _ _ C I RN IS) as (B & HE & GG).
     unfold prescribed. rewrite Ty. change (1 =? 0) with false. change (1 =? 1) with true. cbv iota.
     rewrite <- guard_child, <- B.
     destruct b; cbn [negb].
@@ -143,13 +162,13 @@ Section Reply.
     destruct (zassoc s dv) as [[x|]|]; reflexivity.
   Qed.
 
-  Lemma handle_req_eff g m g1 rep : cfgv v g -> Inv orc g -> wire_ok (m_payload m) = true -> m_type m = 2 ->
+  Lemma handle_req_eff g m g1 rep : cfgv v g -> Inv orc g -> 0 <= m_node m <= 255 -> wire_ok (m_payload m) = true -> m_type m = 2 ->
     handle_req g m = Ok (g1, rep) ->
     exists N, heff g g1 N /\ N ++ olist_np rep = prescribed v (vw g) m.
   Proof.
-    intros C I W Ty. unfold handle_req.
+    intros C I RN W Ty. unfold handle_req.
     destruct (is_sensor g (m_node m) (Some (m_child m))) as [[g0 b]|e] eqn:IS; cbn [bind]; [|discriminate].
-    destruct (is_sensor_eff _ _ _ _ _ C I IS) as (B & HE & GG).
+    destruct (is_sensor_eff _ _ _ _ _ C I RN IS) as (B & HE & GG).
     unfold prescribed. rewrite Ty. change (2 =? 0) with false. change (2 =? 1) with false.
     change (2 =? 2) with true. cbv iota.
     rewrite <- guard_child, <- B.
@@ -164,11 +183,11 @@ Section Reply.
   Qed.
 
   (* ---- presentation ---- *)
-  Lemma handle_presentation_eff g m g1 rep : cfgv v g -> Inv orc g -> m_type m = 0 ->
+  Lemma handle_presentation_eff g m g1 rep : cfgv v g -> Inv orc g -> 0 <= m_node m <= 255 -> m_type m = 0 ->
     handle_presentation orc g m = Ok (g1, rep) ->
     exists N, heff g g1 N /\ N ++ olist_np rep = prescribed v (vw g) m.
   Proof.
-    intros C I Ty. unfold handle_presentation. unfold prescribed. rewrite Ty. change (0 =? 0) with true. cbv iota.
+    intros C I RN Ty. unfold handle_presentation. unfold prescribed. rewrite Ty. change (0 =? 0) with true. cbv iota.
     rewrite sys255. destruct (m_child m =? 255).
     - destruct (get_node (add_sensor g (m_node m)) (m_node m)) as [nd|] eqn:G; [|discriminate].
       intro H. inversion H; subst g1 rep. exists []. split.
@@ -176,7 +195,7 @@ Section Reply.
         apply (heff_put_alert _ (m_node m) nd); try reflexivity; [apply Inv_add_sensor; exact I|exact G].
       + unfold olist_np. rewrite Ty. reflexivity.
     - destruct (is_sensor g (m_node m) None) as [[g0 b]|e] eqn:IS; cbn [bind]; [|discriminate].
-      destruct (is_sensor_eff _ _ _ _ _ C I IS) as (B & HE & GG).
+      destruct (is_sensor_eff _ _ _ _ _ C I RN IS) as (B & HE & GG).
       rewrite <- guard_node, <- B.
       destruct b; cbn [negb].
       + specialize (GG eq_refl). subst g0. symmetry in B. destruct (guard_get _ _ _ B) as (nd & G & _). rewrite G.
@@ -192,14 +211,14 @@ Section Reply.
   Definition need_node (g : gw) (m : msg) : list msg :=
     if known (vw g) (m_node m) then [] else unknown_reply v (m_node m).
 
-  Lemma node_attr_eff f g m g1 rep : cfgv v g -> Inv orc g ->
+  Lemma node_attr_eff f g m g1 rep : cfgv v g -> Inv orc g -> 0 <= m_node m <= 255 ->
     (forall nd p, n_id (f nd p) = n_id nd /\ n_queue (f nd p) = n_queue nd /\ sleeping (f nd p) = sleeping nd) ->
     node_attr_handler f g m = Ok (g1, rep) ->
     exists N, heff g g1 N /\ N ++ olist_np rep = need_node g m.
   Proof.
-    intros C I Hf. unfold node_attr_handler, need_node.
+    intros C I RN Hf. unfold node_attr_handler, need_node.
     destruct (is_sensor g (m_node m) None) as [[g0 b]|e] eqn:IS; cbn [bind]; [|discriminate].
-    destruct (is_sensor_eff _ _ _ _ _ C I IS) as (B & HE & GG).
+    destruct (is_sensor_eff _ _ _ _ _ C I RN IS) as (B & HE & GG).
     rewrite <- guard_node, <- B.
     destruct b; cbn [negb].
     - specialize (GG eq_refl). subst g0. symmetry in B. destruct (guard_get _ _ _ B) as (nd & G & _). rewrite G.
@@ -210,11 +229,11 @@ Section Reply.
   Qed.
 
   (* a handler that starts with the node guard, when the guard fails *)
-  Lemma guard_fails g m g0 b : cfgv v g -> Inv orc g -> known (vw g) (m_node m) = false ->
+  Lemma guard_fails g m g0 b : cfgv v g -> Inv orc g -> 0 <= m_node m <= 255 -> known (vw g) (m_node m) = false ->
     is_sensor g (m_node m) None = Ok (g0, b) ->
     b = false /\ heff g g0 (need_node g m).
   Proof.
-    intros C I K IS. destruct (is_sensor_eff _ _ _ _ _ C I IS) as (B & HE & _).
+    intros C I RN K IS. destruct (is_sensor_eff _ _ _ _ _ C I RN IS) as (B & HE & _).
     rewrite guard_node, K in B. subst b. split; [reflexivity|]. unfold need_node. rewrite K. exact HE.
   Qed.
 
@@ -259,12 +278,12 @@ Section Reply.
     - intro H. inversion H; subst g1 rep. exists []. split; [apply heff_refl|reflexivity].
   Qed.
 
-  Lemma handle_internal_eff g m g1 rep : cfgv v g -> Inv orc g -> wire_ok (m_payload m) = true -> m_type m = 3 ->
+  Lemma handle_internal_eff g m g1 rep : cfgv v g -> Inv orc g -> 0 <= m_node m <= 255 -> wire_ok (m_payload m) = true -> m_type m = 3 ->
     between 0 (max_sub v 3) (m_sub m) = true -> wakes_up v (vw g) m = false ->
     handle_internal orc clock g m = Ok (g1, rep) ->
     exists N, heff g g1 N /\ N ++ olist_np rep = prescribed v (vw g) m.
   Proof.
-    intros C I W Ty B WU. unfold handle_internal. rewrite (cfgv_tab v g C), Ty.
+    intros C I RN W Ty B WU. unfold handle_internal. rewrite (cfgv_tab v g C), Ty.
     pose proof (internal_resolution v _ B) as A.
     unfold wakes_up in WU. rewrite Ty in WU. change (3 =? 3) with true in WU. cbn [andb] in WU.
     unfold prescribed. rewrite Ty. change (3 =? 0) with false. change (3 =? 1) with false.
@@ -294,18 +313,18 @@ Section Reply.
     - (* heartbeat response 2.0/2.1: only for an unknown node here *)
       rewrite andb_true_r in WU. unfold handle_heartbeat_response.
       destruct (is_sensor g (m_node m) None) as [[g0 b]|e] eqn:IS; cbn [bind]; [|discriminate].
-      destruct (guard_fails g m g0 b C I WU IS) as [-> HE]. cbn [negb]. intro H. inversion H; subst g1 rep.
+      destruct (guard_fails g m g0 b C I RN WU IS) as [-> HE]. cbn [negb]. intro H. inversion H; subst g1 rep.
       exists (need_node g m). split; [exact HE|apply app_nil_r].
     - (* discover response *) unfold handle_discover_response.
       destruct (is_sensor g (m_node m) None) as [[g0 b]|e] eqn:IS; cbn [bind]; [|discriminate].
-      destruct (is_sensor_eff _ _ _ _ _ C I IS) as (Bb & HE & GG). cbn [fst].
+      destruct (is_sensor_eff _ _ _ _ _ C I RN IS) as (Bb & HE & GG). cbn [fst].
       intro H. inversion H; subst g1 rep. unfold need_node. rewrite <- guard_node, <- Bb.
       destruct b; [exists []|exists (unknown_reply v (m_node m))]; (split; [exact HE|]); [reflexivity|apply app_nil_r].
     - (* heartbeat 2.2 *) apply node_attr_eff; try assumption. intros; repeat split; reflexivity.
     - (* pre-sleep: only for an unknown node here *)
       rewrite andb_true_r in WU. unfold handle_pre_sleep.
       destruct (is_sensor g (m_node m) None) as [[g0 b]|e] eqn:IS; cbn [bind]; [|discriminate].
-      destruct (guard_fails g m g0 b C I WU IS) as [-> HE]. cbn [negb]. intro H. inversion H; subst g1 rep.
+      destruct (guard_fails g m g0 b C I RN WU IS) as [-> HE]. cbn [negb]. intro H. inversion H; subst g1 rep.
       exists (need_node g m). split; [exact HE|apply app_nil_r].
     - (* no handler registered *) intro H. inversion H; subst g1 rep. exists []. split; [apply heff_refl|reflexivity].
   Qed.
@@ -348,14 +367,14 @@ Section Reply.
     intro H. inversion H; subst g2 resp. split; [apply heff_set_ota|reflexivity].
   Qed.
 
-  Lemma handle_stream_eff g m g1 rep : cfgv v g -> Inv orc g -> wire_ok (m_payload m) = true -> m_type m = 4 ->
+  Lemma handle_stream_eff g m g1 rep : cfgv v g -> Inv orc g -> 0 <= m_node m <= 255 -> wire_ok (m_payload m) = true -> m_type m = 4 ->
     between 0 (max_sub v 4) (m_sub m) = true ->
     handle_stream orc clock g m = Ok (g1, rep) ->
     exists N, heff g g1 N /\ N ++ olist_np rep = prescribed v (vw g) m.
   Proof.
-    intros C I W Ty B. unfold handle_stream.
+    intros C I RN W Ty B. unfold handle_stream.
     destruct (is_sensor g (m_node m) None) as [[g0 b]|e] eqn:IS; cbn [bind]; [|discriminate].
-    destruct (is_sensor_eff _ _ _ _ _ C I IS) as (Bb & HE & GG).
+    destruct (is_sensor_eff _ _ _ _ _ C I RN IS) as (Bb & HE & GG).
     unfold prescribed. rewrite Ty. change (4 =? 0) with false. change (4 =? 1) with false.
     change (4 =? 2) with false. change (4 =? 3) with false. cbv iota.
     rewrite <- guard_node, <- Bb.
@@ -477,7 +496,7 @@ Section Reply.
            | Some vti => [mkMsg sid cid (ov mt 1) (ov a 0) vti (py_str x)]
            | None => []
            end
-    else unknown_reply v sid.
+    else unknown_req sid.
 
   Lemma set_child_value_eff g sid cid vt x mt a g' : cfgv v g -> Inv orc g ->
     set_child_value orc g sid cid vt x mt a = Ok g' ->
@@ -485,7 +504,7 @@ Section Reply.
   Proof.
     intros C I. unfold set_child_value, set_child_commands.
     destruct (is_sensor g sid (Some cid)) as [[g0 b]|e] eqn:IS; cbn [bind]; [|discriminate].
-    destruct (is_sensor_eff _ _ _ _ _ C I IS) as (B & HE & GG). rewrite <- B.
+    destruct (is_sensor_eff_any _ _ _ _ _ C I IS) as (B & HE & GG). rewrite <- B.
     destruct b; cbn [negb]; [|intro H; inversion H; subst g'; exact HE].
     specialize (GG eq_refl). subst g0. symmetry in B. destruct (guard_get _ _ _ B) as (nd & G & _). rewrite G.
     pose proof (get_node_ok orc g _ _ I G) as [K _]. simpl in K.
